@@ -875,7 +875,7 @@ func (e *env) checkConservation(store interface {
 		known := new(big.Int)
 		for i, tx := range blk.GetBody().GetTxs() {
 			if feeDelegUnpayable(tx, rcpts.Get()[i]) {
-				known.Add(known, sentAway(string(tx.GetBody().GetPayload()), tx.GetBody().GetRecipient()))
+				known.Add(known, sentAway(string(tx.GetBody().GetPayload()), tx.GetBody().GetRecipient(), tx.GetBody().GetAccount()))
 			}
 		}
 		if known.Sign() > 0 && new(big.Int).Sub(sa, want).Cmp(known) == 0 {
